@@ -205,6 +205,22 @@ inductive TaskEv
   | returned (e : Option Err)
   deriving DecidableEq, Repr
 
+def TaskEv.spawned : TaskEv → List Task
+  | .spawn k => [⟨k, .fresh⟩]
+  | _ => []
+
+def TaskEv.rets : TaskEv → List Err
+  | .returned (some e) => [e]
+  | _ => []
+
+def TaskEv.cbs (sent : Bool) : TaskEv → Nat
+  | .callback => if sent then 1 else 0
+  | _ => 0
+
+def TPc.handedOver : TPc → List Err
+  | .handOver e => [e]
+  | _ => []
+
 /-- steps of ONE pool goroutine. `cancelled` = the pool context is cancelled. Arms that are not the
     cancel arm may fire at any time (over-approximation of the environment). -/
 inductive TStep (p : Params) (cancelled : Bool) : Task → TaskEv → Task → Prop
@@ -247,9 +263,9 @@ inductive Step (p : Params) : St → St → Prop
       Step p s { s with runner := .done, received := s.received ++ [e] }
   | task {s pre post t t' ev} : s.tasks = pre ++ t :: post → TStep p s.poolCancelled t ev t' →
       Step p s { s with
-        tasks := pre ++ t' :: post ++ (match ev with | .spawn k => [⟨k, .fresh⟩] | _ => []),
-        returned := s.returned ++ (match ev with | .returned (some e) => [e] | _ => []),
-        cbAfter := s.cbAfter + (match ev with | .callback => (if s.runner.sent then 1 else 0) | _ => 0) }
+        tasks := pre ++ t' :: post ++ ev.spawned,
+        returned := s.returned ++ ev.rets,
+        cbAfter := s.cbAfter + ev.cbs s.runner.sent }
   | close {s} : s.runner ≠ .idle →
       Step p s { s with
         clientCancelled := true, closeCalls := s.closeCalls + 1,
@@ -274,7 +290,7 @@ inductive Quiet (p : Params) : St → St → Prop
   | mk {s pre post t t'} : s.poolCancelled = true → s.tasks = pre ++ t :: post →
       TStep p true t (.move false) t' ∨ (∃ e, TStep p true t (.returned e) t') →
       Quiet p s { s with tasks := pre ++ t' :: post,
-                         returned := s.returned ++ (match t'.pc with | .handOver e => [e] | _ => []) }
+                         returned := s.returned ++ t'.pc.handedOver }
 
 /-! ### Reading the parameters off the skeletons -/
 
